@@ -112,6 +112,20 @@ fn rlp_string(payload: &[u8]) -> Vec<u8> {
     out
 }
 
+/// RLP list item around an already encoded payload.
+fn rlp_list(payload: &[u8]) -> Vec<u8> {
+    let mut out = Vec::with_capacity(payload.len() + 9);
+    if payload.len() <= 55 {
+        out.push(0xc0 + payload.len() as u8);
+    } else {
+        let l = be_min(&[payload.len() as u64]);
+        out.push(0xf7 + l.len() as u8);
+        out.extend_from_slice(&l);
+    }
+    out.extend_from_slice(payload);
+    out
+}
+
 /// RLP scalar: the minimal big-endian byte string of the value.
 fn ref_rlp(limbs: &[u64]) -> Vec<u8> {
     rlp_string(&be_min(limbs))
@@ -322,6 +336,43 @@ fn op_rlp<const B: usize, const L: usize>(m: &mut Mon, limbs: &[u64]) {
         let r = m.must(|| rlp::decode::<Uint<B, L>>(&bytes));
         decoded(m, "rlp.roundtrip", r, limbs);
     }
+    // list context: the item must count as exactly one element wherever it stands (zero first / in the
+    // middle / last), through encode_list and through an explicit fixed-length stream, also nested
+    {
+        let z: Uint<B, L> = Uint::ZERO;
+        let mx: Uint<B, L> = Uint::MAX;
+        let items = [z, v, z, mx, v, z];
+        let mut payload = Vec::new();
+        for it in &items {
+            payload.extend_from_slice(&ref_rlp(it.as_limbs()));
+        }
+        let want_list = rlp_list(&payload);
+        if let Some(bytes) = must_k(m, "rlp.list.encode_list.panic", || rlp::encode_list::<Uint<B, L>, _>(&items).to_vec()) {
+            bytes_eq(m, "rlp.list.encode_list", &bytes, &want_list);
+            if let Some(d) = must_k(m, "rlp.list.decode_list.panic", || rlp::Rlp::new(&bytes).as_list::<Uint<B, L>>()) {
+                match d {
+                    Ok(d) => {
+                        m.eq("rlp.list.roundtrip", &d.iter().map(|x| x.as_limbs().to_vec()).collect::<Vec<_>>(),
+                             &items.iter().map(|x| x.as_limbs().to_vec()).collect::<Vec<_>>());
+                    }
+                    Err(e) => m.fail("rlp.list.roundtrip", "Ok(items)", &format!("Err({e:?})")),
+                }
+            }
+        }
+        if let Some(bytes) = must_k(m, "rlp.list.stream.panic", || {
+            let mut s = rlp::RlpStream::new_list(2);
+            s.begin_list(items.len());
+            for it in &items {
+                s.append(it);
+            }
+            s.append(&v);
+            s.out().to_vec()
+        }) {
+            let mut outer = want_list.clone();
+            outer.extend_from_slice(&ref_rlp(limbs));
+            bytes_eq(m, "rlp.list.nested_stream", &bytes, &rlp_list(&outer));
+        }
+    }
     // Bits: a BYTES-long string; round-trip only.
     let b = Bits::from(v);
     if let Some(bytes) = m.must(|| rlp::encode(&b).to_vec()) {
@@ -411,6 +462,27 @@ fn alloy_extra<const B: usize, const L: usize>(m: &mut Mon, limbs: &[u64], bytes
     }
     let r = m.must(|| alloy_rlp::decode_exact::<Uint<B, L>>(bytes));
     decoded(m, "alloy_rlp.decode_exact", r, limbs);
+    // list context (Vec<Uint> is an RLP list of the items)
+    {
+        let items: Vec<Uint<B, L>> = vec![Uint::ZERO, v, Uint::ZERO, Uint::MAX, v];
+        let mut payload = Vec::new();
+        for it in &items {
+            payload.extend_from_slice(&ref_rlp(it.as_limbs()));
+        }
+        let want_list = rlp_list(&payload);
+        if let Some(b2) = must_k(m, "alloy_rlp.list.encode.panic", || alloy_rlp::encode(&items)) {
+            bytes_eq(m, "alloy_rlp.list.bytes", &b2, &want_list);
+            if let Some(d) = must_k(m, "alloy_rlp.list.decode.panic", || alloy_rlp::decode_exact::<Vec<Uint<B, L>>>(&b2)) {
+                match d {
+                    Ok(d) => {
+                        m.eq("alloy_rlp.list.roundtrip", &d.iter().map(|x| x.as_limbs().to_vec()).collect::<Vec<_>>(),
+                             &items.iter().map(|x| x.as_limbs().to_vec()).collect::<Vec<_>>());
+                    }
+                    Err(e) => m.fail("alloy_rlp.list.roundtrip", "Ok(items)", &format!("Err({e:?})")),
+                }
+            }
+        }
+    }
     macro_rules! at {
         ($($w:literal),*) => {
             match B {
